@@ -1,11 +1,14 @@
 (* C20 — physical self-consistency of the state vector (the part that follows from the
    orientation-vector algebra of kep2xyz; regenerated from /repo/pyorbital/orbital.py).
-   The remaining clauses of C20 (velocity = d position/dt, perigee/apogee band, energy, orbit
-   summary) are facts about the SGP4 theory and are validated by sampling in checks/c20.py. *)
+   The inclination clause is proved from the regenerated SGP4 model (Gen_sgp4.v): on every answered
+   propagation the plane's inclination is within (3/4) k2 / pL^2 of the element set's, i.e. within 0.05 deg
+   for pL >= 0.69 earth radii.  The remaining clauses (velocity = d position/dt, perigee/apogee band,
+   energy, orbit summary) are facts about the SGP4 theory and are validated by sampling in checks/c20.py. *)
 From Coq Require Import Reals Lra.
-From PyOrb.lib Require Import PyReal.
-From PyOrb.gen Require Import Gen_astronomy Gen_orbital.
-From PyOrb.proofs Require Import P_Kep.
+From PyOrb.lib Require Import PyReal SgpOutcome.
+From PyOrb.spec Require Import Spec_SGP4.
+From PyOrb.gen Require Import Gen_astronomy Gen_orbital Gen_sgp4 Gen_sgp4_compose.
+From PyOrb.proofs Require Import P_Kep P_Sgp4Init P_Sgp4Prop P_Sgp4Exits P_Sgp4SmallE P_Sgp4Geometry P_Sgp4Plane.
 Open Scope R_scope.
 
 (* |position| = radius *)
@@ -48,6 +51,38 @@ Theorem C20_plane : forall radius theta eqinc ascn rdotk rfdotk,
   X * VY - Y * VX = radius * rfdotk * cos eqinc.
 Proof. exact kep_angular_momentum. Qed.
 Print Assumptions C20_plane.
+
+(* (cos u, sin u) of the report's finishing map is a unit vector for every Ew once eL^2 < 1 (so that
+   |cos 2u|, |sin 2u| <= 1 and the short-period corrections are bounded) *)
+Theorem C20_unit_direction : forall el t e Ew, a el t <> 0 -> eL2 el t e < 1 ->
+  cosu el t e Ew ^ 2 + sinu el t e Ew ^ 2 = 1.
+Proof. exact cosu_sinu_unit. Qed.
+Print Assumptions C20_unit_direction.
+
+(* inclination and node of the returned plane, e0 > 1e-4 (leaf 1): eqinc / ascn are what C20_plane's state is
+   built from (exit_ok is the conclusion of C01_exit_<j>) *)
+Theorem C20_plane_inclination : forall e0 i r w m n b ts j Ew radius theta eqinc ascn rdk rfdk smjaxs,
+  gen_init_outcome e0 i r w m n b = InitMode NearNorm 1 -> gen_nn1_prop_outcome e0 i r w m n b ts = PropOk j ->
+  exit_ok e0 i r w m n b ts Ew radius theta eqinc ascn rdk rfdk smjaxs ->
+  let El := E e0 i r w m n b in let T := mkT false ts in let ec := ecl e0 i r w m n b ts in
+  0 < pL El T ec /\
+  Rabs (eqinc - deg2rad i) <= 3 / 4 * k2 / (pL El T ec) ^ 2 /\
+  Rabs (ascn - Om El T) <= 3 / 2 * k2 / (pL El T ec) ^ 2 /\
+  (69 / 100 <= pL El T ec -> Rabs (eqinc - deg2rad i) <= deg2rad (5 / 100)).
+Proof. exact plane_leaf1. Qed.
+Print Assumptions C20_plane_inclination.
+
+(* the same for e0 <= 1e-4 (leaf 3) *)
+Theorem C20_plane_inclination_small_e : forall e0 i r w m n b ts j Ew radius theta eqinc ascn rdk rfdk smjaxs,
+  gen_init_outcome e0 i r w m n b = InitMode NearNorm 3 -> gen_nn3_prop_outcome e0 i r w m n b ts = PropOk j ->
+  exit_ok3 e0 i r w m n b ts Ew radius theta eqinc ascn rdk rfdk smjaxs ->
+  let El := E e0 i r w m n b in let T := mkT true ts in let ec := ecl3 e0 i r w m n b ts in
+  0 < pL El T ec /\
+  Rabs (eqinc - deg2rad i) <= 3 / 4 * k2 / (pL El T ec) ^ 2 /\
+  Rabs (ascn - Om El T) <= 3 / 2 * k2 / (pL El T ec) ^ 2 /\
+  (69 / 100 <= pL El T ec -> Rabs (eqinc - deg2rad i) <= deg2rad (5 / 100)).
+Proof. exact plane_leaf3. Qed.
+Print Assumptions C20_plane_inclination_small_e.
 
 Example C20_inhabited : 0 < 7000 * (15 / 2).
 Proof. lra. Qed.
